@@ -67,6 +67,10 @@ def handle : List String → String
     match parseBool? a, parseBool? b, parseBool? c, parseBool? d, parseBool? f0, parseBool? e, parseBool? f with
     | some ej, some mr, some hl, some ho, some hf, some di, some gb => if shouldNest ej mr hl ho hf di gb then "1" else "0"
     | _, _, _, _, _, _, _ => "bad-op"
+  | ["fkcols", pk, pairs] =>
+    match parseNatList? pk, parsePairList? pairs with
+    | some p, some pr => "ok " ++ showNatList (fkColsPkOrder p pr)
+    | _, _ => "bad-op"
   | ["refs", ps, cs] =>
     match parseParents? ps, parseChildren? cs with
     | some parents, some children =>
